@@ -439,3 +439,31 @@ PLAN["C08"]["rule"] += ("; TestC08Extents: the same enumeration over pre-states 
 for _x in PLAN["C18"]["quick"]["tests"]:
     if _x["run"] == "TestC18":
         _x["checks"] = 30
+
+# ---- rule texts: what the third session added to the generators and oracles ------------------------------
+_OUT = ("; per-replica outcomes of a data-path call are ok / error reply / diskerr (the replica's own pwrite or fsync fails) / stall beyond the deadline / drop (connection closed with the request in flight) / "
+        "dropwait (the same with 4 s deadlines, so that the rpc client ends the in-flight request itself) / slow (applied after 1.6 deadlines, when the controller has given up); a call that ran against a broken "
+        "disk counts as not applied whatever the replica answered")
+for _pid in ("C02", "C04", "C05"):
+    PLAN[_pid]["rule"] += _OUT
+PLAN["C03"]["rule"] += ("; sequences 'loneboot' (a detached replica comes back alone), 'revertfail' (a volume revert failing on one replica at the quorum edge), ghost registrations (a start counted a replica "
+                        "that was attached and detached since it registered) and 'failed replica still attached' carry C03 when the volume stays writable below its quorum of up-to-date replicas")
+PLAN["C04"]["rule"] += "; 'addwrite' (a write while the joining replica's snapshot request is parked), 'loneboot' with the ghost-registration oracle (stale data served by a replica elected without a majority)"
+PLAN["C05"]["rule"] += "; 'loneboot' (a detached replica must not come back in service without a rebuild)"
+PLAN["C06"]["rule"] += ("; a third of the volume snapshots have names that look like file names (v7.img, volume-snap-v7, X.img next to X); after every step every RW replica's copy of every volume snapshot is "
+                        "compared with the image of the moment it was taken; engine programs revert to snapshots that an earlier revert cut out of the live chain ('orphanseq') and run the 'delpunch' sequence")
+PLAN["C07"]["rule"] += ("; 'overlap' profile of the system tier (two overlapping absences), 'staleboot' (the volume restarts on an older replica, a newer one rejoins and its revision count has to come down), "
+                        "the rebuild source is the controller's own choice")
+PLAN["C08"]["rule"] += ("; a third of the write/snapshot/revert/open/close/remove cases run victim and reopening inspector with space reclamation on; 'removenext' follow-up (after a failed removal the victim "
+                        "removes the child as well, dumps what it serves and closes)")
+PLAN["C09"]["rule"] += "; half of the scripted cases register through the product's controller client and POST /v1/register; revision counts are drawn around 2^31, 2^32, 3e9, 2^40 and 2^62 as well as 1..12"
+PLAN["C10"]["rule"] += ("; all RW replicas report the same revision count at every quiescent point of every stack program; 'verifyrace' (a write while the controller verifies a rebuild), 'slow' outcomes, "
+                        "'staleboot'; TestC10Concurrent with readers of the count (it never goes back)")
+PLAN["C12"]["rule"] += "; 'orphanseq' (reverts to snapshots outside the live chain, also after a grow) and 'reuseseq' (removal of a snapshot whose name was used before, within one process life)"
+PLAN["C13"]["rule"] += ("; every replica's volume.meta is read when VerifyRebuildReplica returns (the recorded checkpoint must be on disk then); after every step every RW replica's copy of every volume snapshot is "
+                        "compared with the image of the moment it was taken; UNMAP in TestC13Revert")
+PLAN["C14"]["rule"] += "; the regression inputs under regress/C14 are replayed by the first shard of every run"
+PLAN["C16"]["rule"] += "; half of the grows are spelled with a unit (k, kb, KiB); engine programs revert to a snapshot that was outside the live chain during a grow"
+PLAN["C18"]["rule"] += ("; 'statsrace' (GET /v1/stats parked while a replica is removed: each replica named once, counter = names, a membership that existed), 'addlate' (a slow add overtaken by another add and "
+                        "promotion), 'loneboot', RegAll bring-up")
+PLAN["C19"]["rule"] += "; the source's snapshots are called s0.., base/baseimg/.., s0.img.. or volume-snap-s0.."
